@@ -273,6 +273,7 @@ class Interp:
     def cb(self, kind, label, *rest):
         if kind == 'life':
             which, entity, world = rest
+            self.cur_cb_eid = entity
             entry = ('life', label, which, repr(entity), world is self.w)
         elif kind == 'probe':
             entry = ('probe', label, rest[0])
@@ -319,9 +320,39 @@ class Interp:
                     for op in script:
                         if op[0] in ('delete', 'probe'):
                             self.exec_op(op, nested=True)
+                        elif op[0] == 'reap_now':
+                            self.reap_now(op)
                 finally:
                     self.in_life -= 1
                     self.depth -= 1
+
+    def reap_now(self, op):
+        """From an on_remove callback of the deletion pass: finish off
+        *another* entity whose deferred deletion is pending in this very
+        pass - delete it immediately, or strip it of its components (if the
+        pass has not come to it yet; otherwise there is nothing to do). Its
+        callbacks belong to this frame's removal group either way."""
+        eid = dec_id(op[1])
+        how = op[2] if len(op) > 2 else 'delete'
+        if eid not in getattr(self, 'reaping', ()) or not self.enabled:
+            return
+        if eid == getattr(self, 'cur_cb_eid', None):
+            return                      # (never the entity being processed)
+        comps = self.w.get_components(eid)
+        if not comps:
+            return                      # the pass has dealt with it already
+        self.trace.add('reap_now', repr(eid), how)
+        self.probes['pending_entity_finished_by_on_remove'] += 1
+        self.faults['reentrant_delete_during_reaping'] += 1
+        self.depth -= 1                 # its callbacks count for the frame
+        try:
+            if how == 'delete':
+                self.w.delete_entity(eid, immediate=True)
+            else:
+                for c in comps:
+                    self.w.remove_component(eid, type(c))
+        finally:
+            self.depth += 1
 
     def proc_called(self, proc, dt):
         label = proc._label
@@ -1015,6 +1046,7 @@ class Interp:
             self.probes['detach_route.deferred'] += 1
         self.dead.clear()
         self.stale.clear()
+        self.reaping = set(reaped)
         self.emit(groups, exp, origin='reap')
         boom = None
         self.life_ok = True
@@ -1170,8 +1202,16 @@ class Interp:
                     self.fifo.append(['grp', list(exp), False])
                 for e in pexp:
                     self.fifo.append(['grp', [e], True])
-        self.call(lambda: self.w.clear(), owner=('C01', 'C02'),
-                  what='clear')
+        # on_remove callbacks of the clear may finish off other entities that
+        # the clear has not come to yet (same scripts as the deletion pass)
+        self.reaping = set(self.ents) if was_enabled else set()
+        self.life_ok = was_enabled
+        try:
+            self.call(lambda: self.w.clear(), owner=('C01', 'C02'),
+                      what='clear')
+        finally:
+            self.life_ok = False
+            self.reaping = set()
         if self.ents:
             self.routes.add('clear')
             self.probes['detach_route.clear'] += 1
@@ -1939,7 +1979,10 @@ def generate(prop, run_seed, tier='quick', tolerate=frozenset()):
         for i in rng.sample(handlers, min(len(handlers), rng.randint(1, 3))):
             for k in range(rng.randint(1, 2)):
                 scripts[f'rm:c{i}:{k}'] = [
-                    ['delete', rng.choice(cfg['ids'])]
+                    (['delete', rng.choice(cfg['ids'])]
+                     if rng.random() < .6 else
+                     ['reap_now', rng.choice(cfg['ids']),
+                      rng.choice(['delete', 'strip'])])
                     for _ in range(rng.randint(1, 2))]
     return {'format': 1, 'engine': 'world', 'config': cfg, 'ops': ops,
             'scripts': scripts}
@@ -2032,6 +2075,7 @@ PROBES = {
     'C05': ['touch.remove_last_component', 'touch.remove_some', 'touch.add',
             'touch.delete_again', 'touch.delete_immediate',
             'frames_after_failure', 'reap>=2_entities_one_frame',
+            'pending_entity_finished_by_on_remove',
             'request_in_processor', 'request_in_on_remove',
             'frame_failed_by_processor', 'nested_process'],
     'C06': ['diamond_query', 'exact_and_subtype_both_attached',
